@@ -500,6 +500,20 @@ def check_bigbatch(ctx, case):
   ymax = max(max(abs(v) for v in c["y"]) for c in comps) + 1.0
   amax = max(float(numpy.max(numpy.diag(g.covariance.build_kernel_matrix(Xtr[:1])))) for g in gps)
   rel = max(1e-10, 256 * EPS * cond)
+  # the mean is k(x,X) . alpha with alpha = K^-1 (y - P beta): two BLAS blockings of that dot product differ by about
+  # n eps max|k| sum|alpha_i|, and |alpha| can exceed cond * |y| / |K| - use the library's own alpha for the bound
+  ws = base["weights"] if base["kind"] == "sum" else [1.0]
+  mean_abs = 1e-12 * wsum * ymax
+  for w, g in zip(ws, gps):
+    al = numpy.asarray(g.K_inv_y if getattr(g, "K_inv_demeaned_y", None) is None else g.K_inv_demeaned_y, dtype=float)
+    kmax = float(numpy.max(numpy.diag(g.covariance.build_kernel_matrix(Xtr[:1]))))
+    mean_abs += abs(w) * 1024 * EPS * (len(al) + 8) * kmax * float(numpy.sum(numpy.abs(al)))
+    coef = getattr(g, "poly_coef", None)
+    if coef is not None and numpy.size(coef) and not g.has_zero_mean:
+      # polynomial part P(x) . beta: with a nearly collinear basis beta is huge and the terms cancel
+      from libsigopt.compute.python_utils import build_polynomial_matrix
+      Pq = numpy.abs(numpy.asarray(build_polynomial_matrix(g.mean_poly_indices, Xq), dtype=float))
+      mean_abs += abs(w) * 1024 * EPS * float(numpy.max(Pq @ numpy.abs(numpy.asarray(coef, dtype=float))))
   differentiable = all(c["cov"]["kind"] != "c0" for c in comps)
 
   def entry(name, X):
@@ -523,10 +537,11 @@ def check_bigbatch(ctx, case):
       if k >= 2:
         scale *= 1e3  # gradients: length scales down to 1e-2
       err = float(numpy.max(numpy.abs(w - chunked))) if w.size else 0.0
-      if w.shape != chunked.shape or not numpy.all(numpy.isfinite(w)) or err > rel * scale:
+      allowed = rel * scale + (mean_abs * (1e3 if k >= 2 else 1.0) if not is_var else 0.0)
+      if w.shape != chunked.shape or not numpy.all(numpy.isfinite(w)) or err > allowed:
         i = int(numpy.argmax(numpy.abs(w - chunked).reshape(len(w), -1).max(axis=1))) if w.shape == chunked.shape else -1
         ctx.violation(f"C02 batch shape: {name} output {k} on one batch of {N} points differs from the same entry point on chunks of {step} "
-                      f"(max abs difference {err:.3g}, tolerance {rel * scale:.3g})",
+                      f"(max abs difference {err:.3g}, tolerance {allowed:.3g})",
                       {"case": case, "clause": "batch shape", "entry": name, "output": k, "row": i, "N": N})
         ctx.case(key=case, nontrivial=True)
         return True
